@@ -462,6 +462,269 @@ fn shared_ser_body(p: &SharedSerProbe, ctx: &mut CaseCtx) -> PropResult {
     Ok(())
 }
 
+// ---------------------------------------------------------------------------
+// mixed classes: the columns of a class must not depend on which other classes are in the file
+
+pub const FAMILIES: &[&[&str]] = &[
+    &["Part", "TrussPart", "WedgePart", "MeshPart", "SpawnLocation", "CornerWedgePart", "Seat"],
+    &["TextLabel", "TextButton", "TextBox", "ImageLabel", "ImageButton", "Frame", "ScrollingFrame"],
+    &["Fire", "Smoke", "Sparkles", "ParticleEmitter", "Trail", "Beam"],
+    &["Script", "LocalScript", "ModuleScript"],
+    &["IntValue", "NumberValue", "StringValue", "BoolValue", "Vector3Value", "CFrameValue"],
+    &["ScreenGui", "SurfaceGui", "BillboardGui"],
+    &["Sound", "SoundGroup", "EchoSoundEffect", "ReverbSoundEffect"],
+    &["Part", "TextLabel", "Folder", "ZzUnknownClassA", "Model", "Decal"],
+];
+
+#[derive(Clone, Debug, Serialize, Deserialize)]
+pub struct MixedGroup {
+    /// (class, properties) per instance, in sibling order
+    pub instances: Vec<(String, Vec<(String, GVal)>)>,
+}
+
+fn mixed_strategy() -> BoxedStrategy<MixedGroup> {
+    let vp = ValProfile::binary();
+    (
+        0..FAMILIES.len(),
+        proptest::collection::vec((any::<u16>(), proptest::collection::vec((any::<u16>(), any::<u64>(), 0u8..4), 0..5)), 2..8),
+    )
+        .prop_map(move |(fam, raw)| {
+            let family: Vec<&str> = FAMILIES[fam].iter().copied().filter(|c| c.starts_with("Zz") || dbview::db().classes.contains_key(*c)).collect();
+            let pools: Vec<Vec<PoolEntry>> = family.iter().map(|c| focus_pool(c)).collect();
+            // spellings every class of the family accepts
+            let common: Vec<PoolEntry> = pools[0]
+                .iter()
+                .filter(|e| pools.iter().all(|p| p.iter().any(|x| x.name == e.name)))
+                .cloned()
+                .collect();
+            let instances = raw
+                .into_iter()
+                .map(|(csel, props)| {
+                    let ci = (csel as usize * family.len()) >> 16;
+                    let mut seen = BTreeSet::new();
+                    let mut out = Vec::new();
+                    for (sel, seed, which) in props {
+                        let pool = if which != 0 && !common.is_empty() { &common } else { &pools[ci] };
+                        if pool.is_empty() {
+                            continue;
+                        }
+                        let e = &pool[(sel as usize * pool.len()) >> 16];
+                        if !seen.insert(e.logical.clone()) {
+                            continue;
+                        }
+                        let val = match &e.ty {
+                            Ty::Enum(name) => {
+                                let items = dbview::enum_items(name);
+                                let items: Vec<u32> = if e.kind == "legacy" { items.into_iter().filter(|v| *v <= 45).collect() } else { items };
+                                if items.is_empty() {
+                                    GVal::Enum((seed % 40) as u32)
+                                } else {
+                                    GVal::Enum(items[(seed >> 8) as usize % items.len()])
+                                }
+                            }
+                            Ty::Value(t) => forest::value_from_seed(*t, vp, seed | 1),
+                        };
+                        out.push((e.name.clone(), val.map_refs(&|_| vals::GRef::None)));
+                    }
+                    (family[ci].to_string(), out)
+                })
+                .collect();
+            MixedGroup { instances }
+        })
+        .boxed()
+}
+
+fn mixed_forest(g: &MixedGroup, keep: impl Fn(&str) -> bool) -> GForest {
+    let nodes: Vec<GNode> = g
+        .instances
+        .iter()
+        .enumerate()
+        .filter(|(_, (c, _))| keep(c))
+        .map(|(i, (class, props))| GNode { parent: None, class: class.clone(), name: format!("i{i}"), props: props.clone() })
+        .collect();
+    let n = nodes.len();
+    GForest { nodes, roots: (0..n).collect() }
+}
+
+fn mixed_body(g: &MixedGroup, ctx: &mut CaseCtx) -> PropResult {
+    let classes: BTreeSet<&str> = g.instances.iter().map(|(c, _)| c.as_str()).collect();
+    // a property (by spelling) that one class sets on some instance while an instance of another class lacks it
+    let mut setters: BTreeMap<&str, BTreeSet<&str>> = BTreeMap::new();
+    for (c, props) in &g.instances {
+        for (n, _) in props {
+            setters.entry(n.as_str()).or_default().insert(c.as_str());
+        }
+    }
+    let cross_gap = g.instances.iter().any(|(c, props)| {
+        setters.iter().any(|(n, cs)| cs.iter().any(|x| x != c) && !props.iter().any(|(pn, _)| pn == n) && dbview::resolve(c, n).is_some())
+    });
+    let shared_between_classes = setters.values().any(|cs| cs.len() >= 2);
+    ctx.label_if(classes.len() >= 2, "several_classes");
+    ctx.label_if(shared_between_classes, "one_property_set_in_two_classes");
+    ctx.label_if(cross_gap, "instance_lacks_property_another_class_sets");
+    ctx.nontrivial_if(classes.len() >= 2 && (shared_between_classes || cross_gap));
+
+    let mut alone: BTreeMap<&str, forest::CanonDom> = BTreeMap::new();
+    for c in &classes {
+        match serialize(&mixed_forest(g, |x| x == *c)) {
+            Ok(b) => {
+                alone.insert(c, forest::observe(&read_binary(&b)?));
+            }
+            Err(e) if e.key.starts_with("serialize-error") => {
+                ctx.excluded("a class does not serialize on its own");
+                return Ok(());
+            }
+            Err(e) => return Err(e),
+        }
+    }
+    let together = match serialize(&mixed_forest(g, |_| true)) {
+        Ok(b) => forest::observe(&read_binary(&b)?),
+        Err(e) if e.key.starts_with("serialize-error") => fail!(
+            "c08:class-mix-dependent-success",
+            "the instances of every class serialize as a file of their own, but the mixed file does not: {}",
+            e.msg
+        ),
+        Err(e) => return Err(e),
+    };
+    ensure!(together.roots.len() == g.instances.len(), "c08:mixed:shape", "{} of {} instances came back", together.roots.len(), g.instances.len());
+    for inst in &together.roots {
+        let own = alone[inst.class.as_str()].roots.iter().find(|r| r.name == inst.name);
+        let Some(own) = own else { fail!("c08:mixed:shape", "instance {} missing from its own-class file", inst.name) };
+        if own.props != inst.props {
+            let diff: Vec<String> = inst
+                .props
+                .iter()
+                .filter(|(k, v)| own.props.get(*k) != Some(v))
+                .map(|(k, v)| format!("{k}: {:?} in the mixed file, {:?} with its own class only", v, own.props.get(k)))
+                .chain(own.props.keys().filter(|k| !inst.props.contains_key(*k)).map(|k| format!("{k}: missing in the mixed file")))
+                .take(3)
+                .collect();
+            let ty = inst.props.iter().find(|(k, v)| own.props.get(*k) != Some(v)).map(|(_, v)| format!("{:?}", v.ty())).unwrap_or_else(|| "missing".into());
+            fail!(format!("c08:depends-on-other-class:{ty}"), "{} {} reads back differently when other classes share the file: {}", inst.class, inst.name, diff.join("; "));
+        }
+    }
+    Ok(())
+}
+
+/// Two classes that inherit one property but have different database defaults for it
+/// (BasePart.Size is (4,1.2,2) for Part and (2,2,2) for TrussPart). One instance of
+/// each class sets the property, one of each lacks it; `order` permutes the four.
+#[derive(Clone, Debug, Serialize, Deserialize)]
+pub struct InheritedDefault {
+    pub prop: String,
+    pub class_a: String,
+    pub class_b: String,
+    pub order: u8,
+    pub seed: u64,
+}
+
+fn inherited_default_cases(per_property: usize) -> Vec<InheritedDefault> {
+    let db = dbview::db();
+    let supported = vals::binary_types();
+    // (declaring class, property) -> [(default as GVal, first class showing it)]
+    let mut groups: BTreeMap<(String, String), Vec<(GVal, String)>> = BTreeMap::new();
+    for class in dbview::all_class_names() {
+        let cp = dbview::class_props(&class);
+        for sp in &cp.plain {
+            if sp.view.is_alias || sp.name != sp.view.canonical || sp.view.canonical == "Name" || sp.view.canonical == "UniqueId" {
+                continue;
+            }
+            let ser = sp.view.ser.as_ref().unwrap();
+            if !supported.contains(&sp.view.canonical_ty.variant_type()) || !supported.contains(&ser.ty.variant_type()) {
+                continue;
+            }
+            if dbview::ser_conflicts(&class).iter().any(|(_, c)| c.contains(&sp.view.canonical)) {
+                continue;
+            }
+            let Some((decl, _)) = dbview::lookup_in(db, &class, &sp.name) else { continue };
+            let Some(def) = dbview::default_of(&class, &sp.view.canonical) else { continue };
+            let g = GVal::from_variant(def, &|_| vals::GRef::None);
+            let e = groups.entry((decl.name.to_string(), sp.name.clone())).or_default();
+            if !e.iter().any(|(v, _)| *v == g) {
+                e.push((g, class.clone()));
+            }
+        }
+    }
+    let mut out = Vec::new();
+    for ((_, prop), reps) in groups {
+        let mut n = 0;
+        'pairs: for i in 0..reps.len() {
+            for j in 0..reps.len() {
+                if i != j {
+                    if n >= per_property {
+                        break 'pairs;
+                    }
+                    n += 1;
+                    let seed = (out.len() as u64 + 1).wrapping_mul(0x9E37_79B9_7F4A_7C15);
+                    for order in 0..24 {
+                        out.push(InheritedDefault {
+                            prop: prop.clone(),
+                            class_a: reps[i].1.clone(),
+                            class_b: reps[j].1.clone(),
+                            order,
+                            seed: seed.wrapping_add(order as u64),
+                        });
+                    }
+                }
+            }
+        }
+    }
+    out
+}
+
+fn inherited_default_body(c: &InheritedDefault, ctx: &mut CaseCtx) -> PropResult {
+    let view = dbview::resolve(&c.class_a, &c.prop).ok_or_else(|| Fail::new("harness:c08", "property vanished"))?;
+    let set_val = |salt: u64| match &view.canonical_ty {
+        Ty::Enum(e) => {
+            let items = dbview::enum_items(e);
+            GVal::Enum(if items.is_empty() { 1 } else { items[(c.seed.wrapping_add(salt) >> 8) as usize % items.len()] })
+        }
+        Ty::Value(t) => forest::value_from_seed(*t, ValProfile::binary(), c.seed.wrapping_add(salt)),
+    };
+    let node = |class: &str, name: &str, v: Option<GVal>| GNode {
+        parent: None,
+        class: class.to_string(),
+        name: name.to_string(),
+        props: v.map(|v| vec![(c.prop.clone(), v)]).unwrap_or_default(),
+    };
+    let four = vec![
+        node(&c.class_a, "a_set", Some(set_val(1))),
+        node(&c.class_b, "b_set", Some(set_val(2))),
+        node(&c.class_a, "a_lacks", None),
+        node(&c.class_b, "b_lacks", None),
+    ];
+    let perm = &permutations(4, &[])[c.order as usize % 24];
+    let mixed = GForest { nodes: perm.iter().map(|i| four[*i].clone()).collect(), roots: (0..4).collect() };
+    let alone = |set: usize, lacks: usize| GForest { nodes: vec![four[set].clone(), four[lacks].clone()], roots: vec![0, 1] };
+    let (Ok(bm), Ok(ba), Ok(bb)) = (serialize(&mixed), serialize(&alone(0, 2)), serialize(&alone(1, 3))) else {
+        ctx.excluded("not serializable");
+        return Ok(());
+    };
+    let find = |bytes: &[u8], name: &str| -> Result<Option<GVal>, Fail> {
+        let d = forest::observe(&read_binary(bytes)?);
+        Ok(d.roots.iter().find(|r| r.name == name).and_then(|r| r.props.get(&view.roundtrip).cloned()))
+    };
+    ctx.nontrivial();
+    for (who, class, alone_bytes) in [("a_lacks", &c.class_a, &ba), ("b_lacks", &c.class_b, &bb)] {
+        let in_mixed = find(&bm, who)?;
+        let by_itself = find(alone_bytes, who)?;
+        let db_default = dbview::default_of(class, &view.canonical).map(|v| GVal::from_variant(v, &|_| vals::GRef::None));
+        ctx.label_if(by_itself == db_default, "alone_shows_database_default");
+        ensure!(
+            in_mixed == by_itself,
+            format!("c08:default-depends-on-other-class:{:?}", view.canonical_ty.variant_type()),
+            "a {class} without {} reads back {:?} when written next to instances of {} / {}, but {:?} (database default {:?}) when written with its own class only",
+            c.prop,
+            in_mixed,
+            c.class_a,
+            c.class_b,
+            by_itself,
+            db_default
+        );
+    }
+    Ok(())
+}
+
 pub fn run(ctx: &Ctx) -> PropertyReport {
     let mut rep = PropertyReport::new(
         "C08",
@@ -469,16 +732,32 @@ pub fn run(ctx: &Ctx) -> PropertyReport {
         "groups of 2-6 same-class instances (Part, MeshPart, TextLabel, ScreenGui, ImageLabel, Sound, ..., unknown classes), each with a random subset of a property pool spelled \
          through canonical / alias / serializes-as / legacy-migrating names, values drawn independently so that leakage is visible. Oracles: (1) if every instance serializes alone the group \
          serializes in every sibling permutation (all n! for n <= 4, 24 sampled beyond); (2) after read-back each instance shows exactly its own values (migrated where legacy) and, for a property \
-         it lacked, the database default of the class or the type's neutral value, never a sibling's. Non-trivial = the group mixes >= 2 spellings of one logical property, or an instance lacks a \
+         it lacked, the database default of the class or the type's neutral value, never a sibling's; (3) mixed-classes: 2-7 instances drawn from a family of related classes (BasePart subclasses, GuiObjects, ...), properties mostly from the spellings the whole \
+         family shares: every instance reads back from the mixed file exactly what it reads back from a file holding its own class only; (4) inherited-defaults: for every property whose inheriting classes have different \
+         database defaults, one instance of each of two classes sets it and one of each lacks it, in a permuted order: the lacking ones read back what they read back when written with their own class only. Non-trivial = the group mixes >= 2 spellings of one logical property, or an instance lacks a \
          property a sibling carries.",
     );
     let sub = crate::engine::replay_subcheck_or_all(ctx);
     if sub.runs("groups") {
-        let cases = ctx.cfg.cases(12_000, 400_000);
+        let cases = ctx.cfg.cases(40_000, 800_000);
         let mut r = ctx.run_prop("groups", cases, group_strategy, body);
         for l in ["mixes_spellings_of_one_logical_property", "instance_lacks_property_a_sibling_has", "has_legacy_spelling", "has_alias_spelling", "unknown_class"] {
             r.floor(l, cases / 100);
         }
+        rep.push(r);
+    }
+    if sub.runs("mixed-classes") {
+        let cases = ctx.cfg.cases(40_000, 800_000);
+        let mut r = ctx.run_prop("mixed-classes", cases, mixed_strategy, mixed_body);
+        r.floor("one_property_set_in_two_classes", cases / 20);
+        r.floor("instance_lacks_property_another_class_sets", cases / 20);
+        rep.push(r);
+    }
+    if sub.runs("inherited-defaults") {
+        // every (declaring class, property) whose inheriting classes disagree on the default
+        let cases = inherited_default_cases(usize::MAX);
+        let mut r = ctx.run_list("inherited-defaults", cases, true, inherited_default_body);
+        r.floor("alone_shows_database_default", 1000);
         rep.push(r);
     }
     if sub.runs("shared-serialized-name") {
